@@ -227,9 +227,26 @@ def _parse_iso8601_interval(text: str) -> _Interval:
         start = parse_iso8601(first)
         end = parse_iso8601(last)
 
+    if duration is not None and not isinstance(duration, Duration):
+        raise ParserError("Invalid interval")
+
     return _Interval(
-        cast(datetime, start), cast(datetime, end), cast(Duration, duration)
+        _interval_endpoint(start), _interval_endpoint(end), cast(Duration, duration)
     )
+
+
+def _interval_endpoint(
+    value: datetime | date | time | Duration | None,
+) -> datetime | None:
+    if value is None or isinstance(value, datetime):
+        return value
+
+    if isinstance(value, date):
+        # A date denotes its first instant, as it does outside an interval
+        return datetime(value.year, value.month, value.day)
+
+    # Times of day and durations cannot delimit an interval
+    raise ParserError("Invalid interval")
 
 
 __all__ = ["parse", "parse_iso8601"]
